@@ -2,6 +2,11 @@ package main
 
 import (
 	"encoding/json"
+	"fmt"
+
+	"github.com/goose-lang/goose/machine/disk"
+
+	"verif/simsync"
 
 	"verif/harness"
 	"verif/model"
@@ -20,6 +25,29 @@ func (c11) Shrink(pj json.RawMessage) []json.RawMessage { return shrinkDPlan(pj)
 func (c11) Gen(rng *simrt.Rand, tier string, run int) interface{} {
 	p := DPlan{System: "file", PriorLen: -1}
 	n := rng.PickU64(1, 2, 3, 5, 8, 16)
+	if run%4 == 3 {
+		// (d) concurrent clients, a failing flush, then a power crash
+		p.Batch = "concflush"
+		p.Ordered = rng.Chance(2, 3) // slow flushes: other clients pile up behind one in flight
+		nc := 3 + rng.Intn(3)
+		p.PriorLen = int64(nc) * model.BlockSize
+		for c := 0; c < nc; c++ {
+			var ops []SeqOp
+			for k := 0; k < 1+rng.Intn(2); k++ {
+				ops = append(ops, SeqOp{Kind: "write", Addr: uint64(c), ID: uint64(0x4000 + 0x100*c + k + 1)}, SeqOp{Kind: "barrier"})
+			}
+			p.Rounds = append(p.Rounds, Round{N: uint64(nc), Ops: ops})
+		}
+		nf := 0
+		for _, r := range p.Rounds {
+			nf += len(r.Ops) / 2
+		}
+		p.Faults = []simunix.Fault{{Kind: "errno", Errno: int(simunix.EIO), Op: "fsync", At: rng.Intn(nf), Sticky: rng.Chance(2, 3)}}
+		if rng.Chance(1, 2) {
+			p.Faults[0].At = rng.Intn(3) // an early flush: more callers are still queued behind it
+		}
+		return p
+	}
 	switch run % 3 {
 	case 0: // (a) close/reopen with prior images of every interesting length
 		p.Batch = "reopen"
@@ -77,6 +105,7 @@ func (c11) Expand(pj json.RawMessage) []json.RawMessage {
 	if p.Batch != "crash" && p.Batch != "fault" {
 		return nil
 	}
+	_ = pj
 	// pilot: fault-free run of round 0 to learn the system calls it makes
 	pilot := p
 	pilot.Faults = nil
@@ -158,6 +187,9 @@ func (c11) Exec(pj json.RawMessage, tape *simrt.Tape, keepLog bool) harness.RunO
 	if err := json.Unmarshal(pj, &p); err != nil {
 		return harness.RunOut{Infra: err.Error()}
 	}
+	if p.Batch == "concflush" {
+		return execConcFlush(&p, tape, keepLog)
+	}
 	out := harness.RunOut{Fingerprint: planHash(pj, ""), Probes: map[string]int{}, Faults: map[string]int{}}
 	r := runSeq(&p, "file", keepLog, "filedisk")
 	out.Events = r.events
@@ -182,5 +214,120 @@ func (c11) Exec(pj json.RawMessage, tape *simrt.Tape, keepLog bool) harness.RunO
 	}
 	out.Violation = r.violation
 	out.Sample = map[string]interface{}{"plan": p, "syscalls": r.syscalls}
+	return out
+}
+
+// execConcFlush: several clients write their own block and call Barrier
+// concurrently while one flush (or every flush from some point on) fails; then
+// the power fails with every unsynced write lost. A client whose Barrier
+// returned normally must find the value it had written before that Barrier (or
+// a later one of its own) after reopening. In this plan Rounds[c] is client c's
+// operation list (the disk is opened once with Rounds[0].N blocks).
+func execConcFlush(p *DPlan, tape *simrt.Tape, keepLog bool) harness.RunOut {
+	s := simrt.New(simrt.Config{Tape: tape, KeepLog: keepLog})
+	kc := simunix.Config{}
+	if p.Ordered { // reused as "slow flush" switch for this batch
+		kc.SlowFsyncNs = 1_000_000
+	}
+	k := simunix.NewKernel(kc)
+	k.WriteFile("/disk.img", priorImage(p.PriorLen))
+	simunix.Attach(s, k)
+	n := p.Rounds[0].N
+	type outcome struct {
+		id        uint64
+		barrierOK bool
+	}
+	results := make([][]outcome, len(p.Rounds))
+	var openErr error
+	res := s.Run(func() {
+		d, err := disk.NewFileDisk("/disk.img", n)
+		if err != nil {
+			openErr = err
+			return
+		}
+		k.SetFaults(p.Faults) // count fsyncs from here
+		var wg simsync.WaitGroup
+		wg.Add(len(p.Rounds))
+		for ci := range p.Rounds {
+			ci := ci
+			simrt.GoNamed(fmt.Sprintf("c%d", ci), func() {
+				defer wg.Done()
+				ops := p.Rounds[ci].Ops
+				for i := 0; i+1 < len(ops); i += 2 {
+					w := ops[i]
+					pan, _ := attempt(func() { d.Write(w.Addr, model.MkBlock(w.ID, model.BlockSize)) })
+					if pan {
+						return
+					}
+					pan, _ = attempt(d.Barrier)
+					results[ci] = append(results[ci], outcome{w.ID, !pan})
+				}
+			})
+		}
+		wg.Wait()
+	})
+	out := harness.RunOut{Fingerprint: res.Fingerprint, Events: res.Events, Probes: s.Probes, Faults: s.Faults, Sched: tape.Sched, Aux: tape.Aux, Log: res.Log}
+	out.Probes["batch_concflush"]++
+	out.Sample = map[string]interface{}{"plan": p}
+	if openErr != nil {
+		out.Violation = viol("filedisk.open", "NewFileDisk failed without a fault: "+openErr.Error())
+		return out
+	}
+	switch res.Outcome {
+	case simrt.Deadlock:
+		out.Violation = viol("filedisk.conc.deadlock", "a Write or Barrier call never returns: "+res.Detail)
+		return out
+	case simrt.StepCap:
+		out.Inconclusive = "inconclusive-steps"
+		return out
+	}
+	for kk, v := range s.Faults {
+		if v > 0 && len(kk) > 0 {
+			out.NonTrivial = true
+		}
+	}
+	// power failure: metadata kept, every unsynced write lost (all-zero choices)
+	k.SetFaults(nil)
+	k.Crash(func(int) int { return 0 })
+	got := make([]uint64, n)
+	uniform := make([]bool, n)
+	s.Run(func() {
+		d, err := disk.NewFileDisk("/disk.img", n)
+		if err != nil {
+			openErr = err
+			return
+		}
+		for a := uint64(0); a < n; a++ {
+			b := d.Read(a)
+			got[a], uniform[a], _ = model.BlockID(b)
+		}
+	})
+	for ci, rs := range results {
+		lastOK := -1
+		for i, r := range rs {
+			if r.barrierOK {
+				lastOK = i
+			}
+		}
+		if lastOK < 0 {
+			continue
+		}
+		out.Probes["client_with_successful_barrier"]++
+		allowed := map[uint64]bool{}
+		for i := lastOK; i < len(rs); i++ {
+			allowed[rs[i].id] = true
+		}
+		// later writes of this client whose Barrier was never reached
+		ops := p.Rounds[ci].Ops
+		for i := 2 * len(rs); i < len(ops); i += 2 {
+			allowed[ops[i].ID] = true
+		}
+		a := uint64(ci)
+		if !uniform[a] || !allowed[got[a]] {
+			out.Violation = &harness.Violation{Oracle: "filedisk.crash.barrier-lost", Key: "filedisk.crash.barrier-lost/concurrent",
+				Msg: fmt.Sprintf("client %d wrote %#x to block %d and its Barrier returned normally, but after a power failure the block holds %#x (uniform=%v); allowed: %v. Faults: %+v", ci, rs[lastOK].id, a, got[a], uniform[a], keys(allowed), p.Faults)}
+			return out
+		}
+	}
 	return out
 }
